@@ -478,6 +478,11 @@ def to_iter(ctx, v):
         return seq_iter([new_ref(s.byte_at(i)) for i in range(n)], "bytes")
     if type(v) is Agg and v.ty == "std::option::Option":
         return seq_iter(list(v.fields) if v.variant == 1 else [], "option")
+    if type(v) is Agg and v.ty == "std::result::Result":
+        # Result<T, E> iterates over the Ok value (an Err yields nothing)
+        if by_ref:
+            return seq_iter([Ref(v.fields, 0)] if v.variant == 0 else [], "result")
+        return seq_iter([v.fields[0]] if v.variant == 0 else [], "result")
     if type(v) is Agg and (v.ty.endswith("ops::Range") or v.ty.endswith("ops::RangeInclusive")):
         return v0
     raise Inconclusive("into_iter on %r" % (v,))
